@@ -753,6 +753,9 @@ class LineEval:
             lb.run(st.body, st.target.id)
         finally:
             self.loop_depth -= 1
+        if lb.breaks and (lb.accumulates or any(k == 'return' for (_c, k, _p, _n) in lb.exits)):
+            self.event('firstonly', 'the loop over the copies is left with `break` at the first copy that satisfies a condition while amounts are accumulated over the copies visited so far: '
+                                    'the copies numbered after that one are dropped, so renumbering changes the total', lb.breaks[0][1], rel)
         if lb.first_only is not None:
             self.event('firstonly', 'every path through the body of the loop over the copies leaves the function in the first round '
                                     f'(`{unparse(lb.first_only, 40)}`): only copy 0 is ever looked at, so which copy carries number 0 decides the result', lb.first_only, rel)
@@ -1295,6 +1298,7 @@ class LineEval:
         rel = ctx.rel
         if isinstance(f, Closure):
             self.event('call', f.name, n, rel)
+            self.event('callnode', (f.rel, getattr(f.node, 'lineno', 0), f.name), n, rel)
             if f.scope.parent is None and f.scope.cls is None and f.rel.startswith('habutax/forms/'):
                 # module-level helper of a form package (figure_tax ...): summarised as a
                 # pure call; its body is analysed on its own (C07, purity rule)
@@ -1733,6 +1737,8 @@ class LoopBody:
         self.exits = []      # (cond E|True, 'raise'|'return', payload, node)
         self.final = {}
         self.first_only = None
+        self.breaks = []
+        self.accumulates = False
 
     def run(self, body, target):
         ev, ctx = self.ev, self.ctx
@@ -1788,6 +1794,7 @@ class LoopBody:
             new = ev.binop(st.op, old, rhs, st, rel)
             self.state[name] = new
             self._mirror(name, new)
+            self.accumulates = True
         elif isinstance(st, ast.Assign) and len(st.targets) == 1 and isinstance(st.targets[0], ast.Name):
             name = st.targets[0].id
             v = ev.nofork_expr(st.value, ctx)
@@ -1815,6 +1822,11 @@ class LoopBody:
             except _RaiseSignal as r:
                 self.exits.append((g, 'raise', r.outcome, st))
         elif isinstance(st, ast.Continue):
+            self.skip = g if self.skip is None else E('or', self.skip, g, ty='bool')
+        elif isinstance(st, ast.Break):
+            # leaving the loop at the first copy that satisfies g: harmless when the loop only looks for such a copy (a flag
+            # set to a constant), order-dependent as soon as anything is accumulated over the copies visited so far
+            self.breaks.append((g, st))
             self.skip = g if self.skip is None else E('or', self.skip, g, ty='bool')
         elif isinstance(st, ast.Pass):
             pass
